@@ -1,4 +1,4 @@
-(** Obligations over gen/FsGen.v: what the models in coq/Fsx transcribe from the
+(** Obligations of C19 over gen/FsGen.v (those of C20 are in FsGenSpec20.v): what the models in coq/Fsx transcribe from the
     source, compared SEMANTICALLY where go2coq can extract it (comparisons
     normalised to (smaller, op, larger) with widening conversions and
     parentheses removed; additive constants, shift amounts and mask widths as
@@ -9,7 +9,7 @@
     one of these breaks C19_source_shape / C20_source_shape and sends the check
     into its search for a concrete failing input. *)
 From Coq Require Import String List Bool NArith.
-From P9V Require Import gen.ConstGen gen.FsGen Fsx.Readdir Fsx.LocalDir Fsx.Qid.
+From P9V Require Import gen.ConstGen gen.FsGen Fsx.Readdir Fsx.LocalDir.
 Import ListNotations.
 Open Scope string_scope.
 
@@ -72,34 +72,3 @@ Proof. reflexivity. Qed.   (* local_loop: [if lenN acc <? count then (continue)]
 Lemma model_wire_break : cmp_sem (snd (fst fs_rreaddir_break)) = Some N.ltb.
 Proof. reflexivity. Qed.   (* wire_trunc: [if count <? acc + entry_size d then []] *)
 
-(** * C20 *)
-Definition fs_qid_shape_ok : bool :=
-  (* encodeLikely: widths and shift amounts are the constants the model uses *)
-  N.eqb fs_enc_ino_bits localfs_inodeLikelyBits
-  && N.eqb fs_enc_upper_bits localfs_devUpperBits && N.eqb fs_enc_upper_offset localfs_devUpperOffset
-  && String.eqb fs_enc_major_def "unix.Major(dev)" && String.eqb fs_enc_minor_def "unix.Minor(dev)"
-  && String.eqb fs_enc_q_init "(ino & inoLikely)"
-  && terms_eqb fs_enc_or_terms [("minor", localfs_inodeLikelyBits); ("major", (localfs_inodeLikelyBits + localfs_devMinorLikelyBits)%N)]
-  && strs_eqb fs_enc_shape
-       ["inoLikely"; "guard (ino & ^inoLikely) != 0"; "upperUnlikely"; "guard (dev & upperUnlikely) != 0";
-        "major"; "guard nOnes 12 < major"; "minor"; "guard nOnes 12 < minor"; "q"; "or"; "or"; "return q, true"]
-  && N.eqb 12 localfs_devMajorLikelyBits && N.eqb 12 localfs_devMinorLikelyBits
-  && String.eqb fs_nOnes "((1 << n) - 1)"
-  (* fallback table: keyed by the devino value built from the stat fields; counter from 2^63 in steps of 1 *)
-  && fs_fallback_key_is_value && String.eqb fs_fallback_key_fields "stat.Dev, stat.Ino"
-  && N.eqb fs_fallback_add_delta 1 && N.eqb fs_nextQid_init next0
-  && strs_eqb fs_localToQid_body
-       ["stat := fi.Sys().(*syscall.Stat_t)";
-        "if q, ok := encodeLikely(uint64(stat.Dev), stat.Ino); ok { return q, nil }";
-        "di := devino{uint64(stat.Dev), stat.Ino}";
-        "if q, ok := qids.Load(di); ok { return q.(uint64), nil }";
-        "q, _ := qids.LoadOrStore(di, nextQid.Add(1))";
-        "return q.(uint64), nil"]
-  (* qids: NewPath adds 1; paths only touched inside one Lock ... deferred Unlock section of QIDFor *)
-  && N.eqb fs_newpath_delta 1 && fs_mapper_paths_guarded && strs_eqb fs_mapper_paths_users ["Mapper.QIDFor"]
-  && strs_eqb fs_qidfor_body
-       ["m.mu.Lock()"; "defer m.mu.Unlock()"; "if path, ok := m.paths[q.Path]; ok"; "path := m.g.NewPath()";
-        "m.paths[q.Path] = path"; "return"].
-
-Lemma qid_shape_ok : fs_qid_shape_ok = true.
-Proof. vm_compute. reflexivity. Qed.
